@@ -110,7 +110,7 @@ func specDefaultKnown(t parser.ValueType) bool {
 //@   ensures[C03,C04] operand-once-right-helper: err == nil ==> calls(evaluateExpression) == 1 && arg(evaluateExpression, 0, 1) == len.Expression() && arg(evaluateExpression, 0, 2) && (len.Expression().ValueType().IsString() ==> calls(StringLen) == 1 && calls(SliceLen) == 0 && arg(StringLen, 0, 0) == res(evaluateExpression, 0, 0).firstValue() && result0.values[0] == res(StringLen, 0, 0)) && (!len.Expression().ValueType().IsString() ==> calls(SliceLen) == 1 && calls(StringLen) == 0 && arg(SliceLen, 0, 0) == res(evaluateExpression, 0, 0).firstValue() && result0.values[0] == res(SliceLen, 0, 0))
 //
 //@ func (*transpiler).evaluateCopy
-//@   ensures[C03,C04] source-once: err == nil ==> calls(evaluateExpression) == 1 && arg(evaluateExpression, 0, 1) == copy.Source() && arg(evaluateExpression, 0, 2) && calls(Copy) == 1 && arg(Copy, 0, 0) == copy.Destination().Name() && arg(Copy, 0, 1) == res(evaluateExpression, 0, 0).firstValue() && arg(Copy, 0, 3) == copy.Destination().Global() && len(result0.values) == 1 && result0.values[0] == res(Copy, 0, 0)
+//@   ensures[C03,C04,C02] source-once: err == nil ==> calls(evaluateExpression) == 1 && arg(evaluateExpression, 0, 1) == copy.Source() && arg(evaluateExpression, 0, 2) && calls(Copy) == 1 && arg(Copy, 0, 0) == copy.Destination().Name() && arg(Copy, 0, 1) == res(evaluateExpression, 0, 0).firstValue() && arg(Copy, 0, 3) == copy.Destination().Global() && len(result0.values) == 1 && result0.values[0] == res(Copy, 0, 0)
 //
 //@ func (*transpiler).evaluateInput
 //@   ensures[C04] prompt-at-most-once: err == nil ==> calls(Input) == 1 && (input.Prompt() == nil ==> calls(evaluateExpression) == 0 && arg(Input, 0, 0) == "") && (input.Prompt() != nil ==> calls(evaluateExpression) == 1 && arg(evaluateExpression, 0, 1) == input.Prompt() && arg(Input, 0, 0) == res(evaluateExpression, 0, 0).firstValue())
@@ -165,15 +165,15 @@ func specDefaultKnown(t parser.ValueType) bool {
 //@   ensures[C01,C02,C04] value-k-once-into-variable-k: result == nil ==> calls(evaluateExpression) == len(assignment.Variables()) && calls(VarDefinition) == len(assignment.Variables()) && forall(k, 0, len(assignment.Variables()), arg(evaluateExpression, k, 1) == assignment.Values()[k] && arg(evaluateExpression, k, 2) && arg(VarDefinition, k, 0) == assignment.Variables()[k].Name() && arg(VarDefinition, k, 1) == res(evaluateExpression, k, 0).firstValue() && arg(VarDefinition, k, 2) == assignment.Variables()[k].Global())
 //
 //@ func (*transpiler).evaluateVarDefinitionCallAssignment
-//@   loop @"range variables" invariant[C02] position-k-to-variable-k: calls(VarDefinition) == rangeindex + 1 && calls(evaluateExpression) == 1 && forall(k, 0, rangeindex + 1, arg(VarDefinition, k, 0) == definition.Variables()[k].Name() && arg(VarDefinition, k, 1) == res(evaluateExpression, 0, 0).values[k] && arg(VarDefinition, k, 2) == definition.Variables()[k].Global())
-//@   ensures[C02,C04] call-once-then-position-k-to-variable-k: result == nil ==> calls(evaluateExpression) == 1 && arg(evaluateExpression, 0, 1) == asExprCall(definition.Call()) && arg(evaluateExpression, 0, 2) && len(res(evaluateExpression, 0, 0).values) == len(definition.Variables()) && calls(VarDefinition) == len(definition.Variables()) && forall(k, 0, len(definition.Variables()), arg(VarDefinition, k, 0) == definition.Variables()[k].Name() && arg(VarDefinition, k, 1) == res(evaluateExpression, 0, 0).values[k] && arg(VarDefinition, k, 2) == definition.Variables()[k].Global())
+//@   loop @"range variables" invariant[C02,C18] position-k-to-variable-k: calls(VarDefinition) == rangeindex + 1 && calls(evaluateExpression) == 1 && forall(k, 0, rangeindex + 1, arg(VarDefinition, k, 0) == definition.Variables()[k].Name() && arg(VarDefinition, k, 1) == res(evaluateExpression, 0, 0).values[k] && arg(VarDefinition, k, 2) == definition.Variables()[k].Global())
+//@   ensures[C02,C04,C18] call-once-then-position-k-to-variable-k: result == nil ==> calls(evaluateExpression) == 1 && arg(evaluateExpression, 0, 1) == asExprCall(definition.Call()) && arg(evaluateExpression, 0, 2) && len(res(evaluateExpression, 0, 0).values) == len(definition.Variables()) && calls(VarDefinition) == len(definition.Variables()) && forall(k, 0, len(definition.Variables()), arg(VarDefinition, k, 0) == definition.Variables()[k].Name() && arg(VarDefinition, k, 1) == res(evaluateExpression, 0, 0).values[k] && arg(VarDefinition, k, 2) == definition.Variables()[k].Global())
 //
 //@ func (*transpiler).evaluateVarAssignmentCallAssignment
-//@   loop @"range variables" invariant[C02] position-k-to-variable-k: calls(VarDefinition) == rangeindex + 1 && calls(evaluateExpression) == 1 && forall(k, 0, rangeindex + 1, arg(VarDefinition, k, 0) == assignment.Variables()[k].Name() && arg(VarDefinition, k, 1) == res(evaluateExpression, 0, 0).values[k] && arg(VarDefinition, k, 2) == assignment.Variables()[k].Global())
-//@   ensures[C02,C04] call-once-then-position-k-to-variable-k: result == nil ==> calls(evaluateExpression) == 1 && arg(evaluateExpression, 0, 1) == asExprCall(assignment.Call()) && arg(evaluateExpression, 0, 2) && len(res(evaluateExpression, 0, 0).values) == len(assignment.Variables()) && calls(VarDefinition) == len(assignment.Variables()) && forall(k, 0, len(assignment.Variables()), arg(VarDefinition, k, 0) == assignment.Variables()[k].Name() && arg(VarDefinition, k, 1) == res(evaluateExpression, 0, 0).values[k] && arg(VarDefinition, k, 2) == assignment.Variables()[k].Global())
+//@   loop @"range variables" invariant[C02,C18] position-k-to-variable-k: calls(VarDefinition) == rangeindex + 1 && calls(evaluateExpression) == 1 && forall(k, 0, rangeindex + 1, arg(VarDefinition, k, 0) == assignment.Variables()[k].Name() && arg(VarDefinition, k, 1) == res(evaluateExpression, 0, 0).values[k] && arg(VarDefinition, k, 2) == assignment.Variables()[k].Global())
+//@   ensures[C02,C04,C18] call-once-then-position-k-to-variable-k: result == nil ==> calls(evaluateExpression) == 1 && arg(evaluateExpression, 0, 1) == asExprCall(assignment.Call()) && arg(evaluateExpression, 0, 2) && len(res(evaluateExpression, 0, 0).values) == len(assignment.Variables()) && calls(VarDefinition) == len(assignment.Variables()) && forall(k, 0, len(assignment.Variables()), arg(VarDefinition, k, 0) == assignment.Variables()[k].Name() && arg(VarDefinition, k, 1) == res(evaluateExpression, 0, 0).values[k] && arg(VarDefinition, k, 2) == assignment.Variables()[k].Global())
 //
 //@ func (*transpiler).evaluateBlock
-//@   loop @"range body" invariant[C04,C16] statement-k-once: calls(evaluate) == rangeindex + 1 && calls(Nop) == 0 && forall(k, 0, rangeindex + 1, arg(evaluate, k, 1) == block.Body()[k])
+//@   loop @"range body" invariant[C04,C16,C13,C19] statement-k-once: calls(evaluate) == rangeindex + 1 && calls(Nop) == 0 && forall(k, 0, rangeindex + 1, arg(evaluate, k, 1) == block.Body()[k])
 //@   ensures[C16] empty-body-gets-a-nop: result == nil && len(block.Body()) == 0 ==> calls(Nop) == 1 && calls(evaluate) == 0
 //@   ensures[C04,C16] every-statement-once-in-order: result == nil && len(block.Body()) > 0 ==> calls(Nop) == 0 && calls(evaluate) == len(block.Body()) && forall(k, 0, len(block.Body()), arg(evaluate, k, 1) == block.Body()[k])
 //
@@ -200,6 +200,19 @@ func specDefaultKnown(t parser.ValueType) bool {
 //@   ensures[C01,C16] chain-shape: result == nil ==> calls(ElseIfStart) == len(ifStatement.ElseIfBranches()) && calls(ElseIfEnd) == len(ifStatement.ElseIfBranches()) && calls(IfEnd) == 1 && (ifStatement.HasElse() ==> calls(ElseStart) == 1 && calls(ElseEnd) == 1 && calls(evaluateBlock) == len(ifStatement.ElseIfBranches()) + 2) && (!ifStatement.HasElse() ==> calls(ElseStart) == 0 && calls(ElseEnd) == 0 && calls(evaluateBlock) == len(ifStatement.ElseIfBranches()) + 1)
 //@   ensures[C01,C04] condition-k-guards-branch-k: result == nil ==> arg(IfStart, 0, 0) == res(evaluateExpression, 0, 0).firstValue() && arg(evaluateBlock, 0, 1) == asBlockBranch(ifStatement.IfBranch()) && forall(k, 0, len(ifStatement.ElseIfBranches()), arg(ElseIfStart, k, 0) == res(evaluateExpression, k + 1, 0).firstValue() && arg(evaluateBlock, k + 1, 1) == asBlockBranch(ifStatement.ElseIfBranches()[k]))
 //
+// The statement dispatcher: break and continue go to their own routines (the two take no
+// argument, so nothing else would notice a mix-up), and an expression used as a statement is
+// evaluated exactly once with its value unused.
+//@ func (*transpiler).evaluate
+//@   ensures[C01,C04,C16] break-is-break-and-continue-is-continue: (statement.StatementType() == parser.STATEMENT_TYPE_BREAK ==> calls(evaluateBreak) == 1 && calls(evaluateContinue) == 0) && (statement.StatementType() == parser.STATEMENT_TYPE_CONTINUE ==> calls(evaluateContinue) == 1 && calls(evaluateBreak) == 0)
+//@   ensures[C04] an-expression-statement-is-evaluated-once-value-unused: calls(evaluateExpression) <= 1 && (calls(evaluateExpression) == 1 ==> !arg(evaluateExpression, 0, 2) && arg(evaluateExpression, 0, 1) == statement)
+//
+//@ func (*transpiler).evaluateBreak
+//@   ensures[C01,C16] asks-the-converter-for-a-break: calls(Break) == 1 && calls(Continue) == 0
+//
+//@ func (*transpiler).evaluateContinue
+//@   ensures[C01,C16] asks-the-converter-for-a-continue: calls(Continue) == 1 && calls(Break) == 0
+
 //@ func (*transpiler).evaluateAppCall
 //@   loop @"for nextCall != nil" invariant[C18] no-converter-call-yet: calls(AppCall) == 0 && forall(k, 0, calls(evaluateExpression), arg(evaluateExpression, k, 2))
 //@   loop @"range nextCall.Args()" invariant[C18] no-converter-call-yet: calls(AppCall) == 0 && forall(k, 0, calls(evaluateExpression), arg(evaluateExpression, k, 2))
@@ -209,8 +222,8 @@ func specDefaultKnown(t parser.ValueType) bool {
 //@   ensures[C18] one-converter-call: err == nil ==> calls(AppCall) == 1 && arg(AppCall, 0, 1) == valueUsed && len(result0.values) == len(res(AppCall, 0, 0))
 //
 //@ func (*transpiler).evaluateProgram
-//@   loop @"range program.Body()" invariant[C04,C16] statement-k-once: calls(evaluate) == rangeindex + 1 && calls(ProgramStart) == 1 && calls(ProgramEnd) == 0 && forall(k, 0, rangeindex + 1, arg(evaluate, k, 1) == program.Body()[k])
-//@   ensures[C04,C16] start-statements-end: result == nil ==> calls(ProgramStart) == 1 && calls(ProgramEnd) == 1 && calls(evaluate) == len(program.Body()) && forall(k, 0, len(program.Body()), arg(evaluate, k, 1) == program.Body()[k])
+//@   loop @"range program.Body()" invariant[C04,C16,C13,C19] statement-k-once: calls(evaluate) == rangeindex + 1 && calls(ProgramStart) == 1 && calls(ProgramEnd) == 0 && forall(k, 0, rangeindex + 1, arg(evaluate, k, 1) == program.Body()[k])
+//@   ensures[C04,C16,C13,C19] start-statements-end: result == nil ==> calls(ProgramStart) == 1 && calls(ProgramEnd) == 1 && calls(evaluate) == len(program.Body()) && forall(k, 0, len(program.Body()), arg(evaluate, k, 1) == program.Body()[k])
 
 func asOperationBinary(o parser.BinaryOperation) parser.Operation   { return o }
 func asOperationComparison(o parser.Comparison) parser.Operation    { return o }
